@@ -28,6 +28,12 @@ pub struct WireState {
     pub write_calls: usize,
     /// Fail the k-th write call (1-based) and every later one.
     pub fail_write_at: Option<usize>,
+    /// ... only the k-th one: the transport accepts writes again afterwards (a transient error)
+    pub fail_write_once: bool,
+    /// what the failing write hands over before it reports the error: 0 nothing, 1 a proper prefix, 2 everything
+    pub fail_deliver: u8,
+    /// Callback invoked with what a failing write handed over before it failed.
+    pub on_failed_write: Option<OnWrite>,
     /// Suspend once inside each write call (lets the environment act between writes).
     pub write_yield: bool,
     pub write_yielded: bool,
@@ -145,7 +151,19 @@ impl WriteHalf for W {
             w.write_calls += 1;
             let tag = w.tag;
             if let Some(k) = w.fail_write_at {
-                if w.write_calls >= k {
+                if w.write_calls == k || (w.write_calls > k && !w.fail_write_once) {
+                    let n = match w.fail_deliver {
+                        0 => 0,
+                        1 => (buf.len() / 2).max(1).min(buf.len().saturating_sub(1)),
+                        _ => buf.len(),
+                    };
+                    if n > 0 {
+                        w.out.extend_from_slice(&buf[..n]);
+                        if let Some(mut cb) = w.on_failed_write.take() {
+                            (cb.0)(tag, &buf[..n]);
+                            w.on_failed_write = Some(cb);
+                        }
+                    }
                     if w.log_writes {
                         ev(json!({"ev":"write_err","c":tag,"k":w.write_calls}));
                     }
